@@ -895,10 +895,10 @@ Qed.
 
 Lemma infer_base_wf r ord a bo bd : infer_base_unit r ord a = Ok (bo, bd) → wf bd.
 Proof.
-  unfold infer_base_unit.
+  unfold infer_base_unit, infer_base_unit_with.
   assert (G : ∀ l acc acc', foldM (infer_step r) l acc = Ok acc' → wf acc.2 → wf acc'.2).
   { induction l as [|kv l IH]; simpl; intros acc acc'; [intros [= <-]; auto|].
-    unfold infer_step at 1. destruct (parse_unit_name r kv.1) as [|[? base] [|? ?]]; simpl; try discriminate.
+    unfold infer_step at 1. destruct (parse_unit_name r kv.1) as [|[? base] ?]; simpl; try discriminate.
     intros H W. apply (IH _ _ H). simpl. apply wf_add. exact W. }
   destruct (foldM (infer_step r) _ ([], ∅)) as [[o d]|] eqn:E; [|discriminate]. cbn [rbind].
   intros [= <- <-]. apply (G _ _ _ E). apply wf_empty.
@@ -1250,16 +1250,32 @@ Proof.
 Qed.
 
 
-(** * [infer_base_unit] is defined exactly when every unit name has a single reading (F21) *)
+(** * [infer_base_unit] is defined as soon as every unit name has a reading (since the repair of
+      F21; the asserting variant needed exactly one) *)
 Lemma infer_base_defined r ord a :
-  (∀ k, k ∈ present a ord → ∃ p b, parse_unit_name r k = (p, b) :: nil) →
+  (∀ k, k ∈ present a ord → parse_unit_name r k ≠ nil) →
   ∃ res, infer_base_unit r ord a = Ok res.
 Proof.
-  intros H. unfold infer_base_unit.
-  assert (G : ∀ l acc, (∀ kv : string * Qc, kv ∈ l → ∃ p b, parse_unit_name r kv.1 = (p, b) :: nil) →
+  intros H. unfold infer_base_unit, infer_base_unit_with.
+  assert (G : ∀ l acc, (∀ kv : string * Qc, kv ∈ l → parse_unit_name r kv.1 ≠ nil) →
                        ∃ acc', foldM (infer_step r) l acc = Ok acc').
   { induction l as [|kv l IH]; intros acc Hl; simpl; [eauto|].
-    destruct (Hl kv ltac:(left)) as (p & b & Hp). unfold infer_step at 1. rewrite Hp. cbn [rbind].
+    pose proof (Hl kv ltac:(left)) as Hp. unfold infer_step at 1.
+    destruct (parse_unit_name r kv.1) as [|[p b] rest]; [contradiction|]. cbn [rbind].
+    apply IH. intros kv' Hin. apply Hl. right. exact Hin. }
+  destruct (G (map (λ k, (k, exp_of a k)) (present a ord)) ([], ∅)) as [[o d] Hod].
+  - intros kv Hin. apply elem_of_list_fmap in Hin as (k & -> & Hk). simpl. apply H. exact Hk.
+  - rewrite Hod. cbn [rbind]. eauto.
+Qed.
+Lemma infer_base_assert_defined r ord a :
+  (∀ k, k ∈ present a ord → ∃ p b, parse_unit_name r k = (p, b) :: nil) →
+  ∃ res, infer_base_unit_assert r ord a = Ok res.
+Proof.
+  intros H. unfold infer_base_unit_assert, infer_base_unit_with.
+  assert (G : ∀ l acc, (∀ kv : string * Qc, kv ∈ l → ∃ p b, parse_unit_name r kv.1 = (p, b) :: nil) →
+                       ∃ acc', foldM (infer_step_assert r) l acc = Ok acc').
+  { induction l as [|kv l IH]; intros acc Hl; simpl; [eauto|].
+    destruct (Hl kv ltac:(left)) as (p & b & Hp). unfold infer_step_assert at 1. rewrite Hp. cbn [rbind].
     apply IH. intros kv' Hin. apply Hl. right. exact Hin. }
   destruct (G (map (λ k, (k, exp_of a k)) (present a ord)) ([], ∅)) as [[o d] Hod].
   - intros kv Hin. apply elem_of_list_fmap in Hin as (k & -> & Hk). simpl. apply H. exact Hk.
